@@ -84,11 +84,26 @@ def run(ctx):
         if "." in q or (PATHS, q) in ANCHORS or hf_flat.is_private(q):
             continue
         if pq_names(FlatFn(ctx.repo, PATHS, fn).fn):
-            dijkstra(ctx, PATHS, fn, item)
+            dijkstra(ctx, PATHS, fn, item, need_pred=False)
     w1_weight_modes(ctx)
     b1_backtracking(ctx, roles)
     b2_fresh_paths(ctx)
     r1_forwarding(ctx)
+
+
+def _holds_true(x):
+    """the value expression is / contains the constant True as a value (not as an option of a call such as dense=True)"""
+    if isinstance(x, ast.Constant):
+        return x.value is True
+    if isinstance(x, (ast.List, ast.Tuple, ast.Set)):
+        return any(_holds_true(e) for e in x.elts)
+    if isinstance(x, ast.IfExp):
+        return _holds_true(x.body) or _holds_true(x.orelse)
+    if isinstance(x, ast.BinOp):
+        return _holds_true(x.left) or _holds_true(x.right)
+    if isinstance(x, ast.BoolOp):
+        return any(_holds_true(v) for v in x.values)
+    return False
 
 
 def _touched_otherwise(region, name):
@@ -1411,6 +1426,10 @@ def _q1_rest(ctx, repo, cls, item, fields, info):
             if newv is not None and pps[1] in au.names(newv):
                 ctx.undecided(R, ctx.site(PQ, pu, st), "PriorityQueue.push rewrites the priority it was given from its own value", "")
                 continue
+            none_guard = any(isinstance(e_, ast.Compare) and len(e_.ops) == 1 and isinstance(e_.ops[0], (ast.Is, ast.Eq)) and hr.is_none(e_.comparators[0])
+                             and isinstance(e_.left, ast.Name) and e_.left.id == pps[1] and p_ for e_, p_ in sk.atoms(sk.path_conds(st)))
+            if none_guard:
+                continue                         # a default for a priority that was not given
             conds = [("" if p_ else "not ") + au.src(e) for e, p_ in sk.atoms(sk.path_conds(st))]
             ctx.fail(R, ctx.site(PQ, pu, st), "PriorityQueue.push replaces the priority it was given",
                      f"`{au.src(st)[:70]}`" + (f" under `{', '.join(conds)}`" if conds else "") + ": the item is queued with another priority "
@@ -1555,14 +1574,14 @@ def _q1_no_side_index(ctx, cls, fields):
 
         def is_item(e, at):
             r = b.resolve(e, at=at, keep=("self",)) if isinstance(e, ast.Name) else e
-            if isinstance(r, ast.Call) and au.call_tail(r) in ("PriorityItem", "heappop", "get", "pop"):
-                return True
+            if isinstance(r, ast.Call) and au.call_tail(r) == "PriorityItem":
+                return True             # (an item returned by heappop / get is no longer queued)
             if isinstance(r, ast.Subscript) and au.is_self_attr(r.value, "data"):
                 return True
             if isinstance(e, ast.Name):
                 for st in au.stmts(fn.body):
                     for nm, v in sym.split_assign(st):
-                        if nm == e.id and isinstance(v, ast.Call) and au.call_tail(v) in ("PriorityItem", "heappop"):
+                        if nm == e.id and isinstance(v, ast.Call) and au.call_tail(v) == "PriorityItem":
                             return True
             return False
         for st in au.stmts(fn.body):
@@ -1601,6 +1620,11 @@ def _q1_priorities_immutable(ctx, fields):
                         if isinstance(x, ast.Attribute) and isinstance(x.ctx, ast.Store) and x.attr == "priority" \
                                 and not (au.is_self_attr(x) and (q.startswith("PriorityItem.") or q.rsplit(".", 1)[-1] in ("__init__", "__post_init__", "__new__"))):
                             n += 1
+                            known_fn = modname == PATHS or q in ("PriorityQueue.push", "PriorityQueue.get", "PriorityQueue.pop", "PriorityQueue.empty",
+                                                                 "PriorityQueue.__init__", "PriorityQueue.front")
+                            if not known_fn:
+                                ctx.undecided("C09-Q1", ctx.site(modname, fn, st), "a priority is modified by a method the rule does not know", "")
+                                continue
                             ctx.fail("C09-Q1", ctx.site(modname, fn, st), "priority of an existing PriorityItem is modified in place",
                                      f"`{au.src(st)}`: heapq orders the list at push time only; lowering the priority of an item that is already "
                                      "in the heap breaks the heap invariant and get() returns a non-minimal item (Dijkstra settles vertices too early)")
@@ -1619,7 +1643,7 @@ def pq_names(fn):
     return out
 
 
-def dijkstra(ctx, modname, fn, item, want_roles=False):
+def dijkstra(ctx, modname, fn, item, want_roles=False, need_pred=True):
     """All D1..D4 obligations of every Dijkstra loop of `fn` (analysed in flattened form); returns the number of loops analysed
     (and the roles found in each loop when want_roles)."""
     F = _flat(ctx, modname, fn)
@@ -1639,7 +1663,7 @@ def dijkstra(ctx, modname, fn, item, want_roles=False):
             ctx.undecided("C09-D1", site, "Dijkstra loop on the priority queue not identified", f"{len(loops)} while-loop(s) use the priority queue")
             continue
         n_loops += 1
-        r = _dijkstra_loop(ctx, modname, fn, F, Q, loops[0], item)
+        r = _dijkstra_loop(ctx, modname, fn, F, Q, loops[0], item, need_pred=need_pred)
         if r:
             roles.append(r)
     return (n_loops, roles) if want_roles else n_loops
@@ -1672,7 +1696,7 @@ def _tab(e):
     return e.id if isinstance(e, ast.Name) else None
 
 
-def _dijkstra_loop(ctx, modname, fn0, F, Q, loop, item):
+def _dijkstra_loop(ctx, modname, fn0, F, Q, loop, item, need_pred=True):
     site = ctx.site(modname, fn0, loop)
     payload = (item or {}).get("payload") or "x"
     b = F.b
@@ -1732,6 +1756,8 @@ def _dijkstra_loop(ctx, modname, fn0, F, Q, loop, item):
         elif bad_pop:
             ctx.fail("C09-D1", S(bad_pop[0]), "current node is not taken from queue.get() / queue.pop()",
                      "Dijkstra must settle the queued node of minimum label and remove it from the queue: " + bad_pop[1])
+        elif other_attr and ctx.repo.has_func(PQ, "PriorityItem." + other_attr[1]):
+            und("C09-D1", other_attr[2], "the popped item is read through a property of PriorityItem")
         elif other_attr and not any(isinstance(n, ast.Attribute) and n.attr == payload for n in au.walk(loop)):
             ctx.fail("C09-D1", S(other_attr[2]), f"popped item is read through .{other_attr[1]}, the payload field of PriorityItem is .{payload}",
                      "the current node must be the payload of the minimum item")
@@ -1865,6 +1891,12 @@ def _dijkstra_loop(ctx, modname, fn0, F, Q, loop, item):
             iv_, fd_ = F.initial_values(fm_[0].id, loop)
             if fd_ and iv_ and all(isinstance(x_, ast.Constant) and x_.value is True for x_ in iv_):
                 inv_tabs.add(fm_[0].id)
+    for c_ in au.calls(loop):
+        if isinstance(c_.func, ast.Attribute) and c_.func.attr in ("remove", "discard") and isinstance(c_.func.value, ast.Name) and len(c_.args) == 1 \
+                and isinstance(c_.args[0], ast.Name) and F.root(c_.args[0].id, c_) == v:
+            d_ = F.definition(c_.func.value.id, loop)
+            if isinstance(d_, (ast.SetComp,)) or (isinstance(d_, ast.Call) and au.call_tail(d_) in ("set", "frozenset") and d_.args):
+                inv_tabs.add(c_.func.value.id)
     if inv_tabs and vis is None:
         und("C09-D2", nloop, "the settled flags are kept with the opposite polarity (a table that starts True and is cleared): this scheme is not analysed")
         roles["VIS"] = None
@@ -1921,9 +1953,23 @@ def _dijkstra_loop(ctx, modname, fn0, F, Q, loop, item):
             ctx.fail("C09-D2", site, "`visited[v] = True` is missing, conditional, or not set to True after the stale-entry test",
                      "an expanded vertex must be marked settled, otherwise every queued duplicate expands it again and "
                      "`if visited: continue` never fires" + (f" (the mark is {bad_kind})" if bad_kind else ""))
+        # the flags must be fresh: a table fetched from the attributes stored on the mesh keeps the marks of an earlier search
+        vbinds = [(st_, v_) for st_ in au.stmts(F.fn.body) for nm_, v_ in sym.split_assign(st_) if nm_ == vis and F.before(st_, loop)]
+        stored = [(st_, v_) for st_, v_ in vbinds if isinstance(v_, ast.Call) and au.call_tail(v_) in ("get_attribute", "attribute")]
+        cleared = [c_ for c_ in au.calls(F.fn) if isinstance(c_.func, ast.Attribute) and c_.func.attr in ("clear", "fill", "reset") and isinstance(c_.func.value, ast.Name)
+                   and F.root(c_.func.value.id, c_) == F.root(vis, loop) and F.before(c_, loop)] + \
+            [st_ for st_, tg_, v_ in hr.item_stores(F.fn) if isinstance(tg_.value, ast.Name) and F.root(tg_.value.id, st_) == F.root(vis, loop) and F.before(st_, loop)
+             and isinstance(v_, ast.Constant) and v_.value is False]
+        if stored and not cleared:
+            ctx.fail("C09-D2", S(stored[0][0]), "the visited flags are an attribute stored on the mesh that is re-used without being cleared",
+                     "every vertex must start unsettled: a second search on the same mesh finds the flags of the first one still set, pops its start "
+                     "element as already settled and stops at once")
         ivals, found = F.initial_values(vis, loop)
-        if any(isinstance(n, ast.Constant) and n.value is True for x in ivals for n in ast.walk(x)):
+        ctor_vals = hr.ctor_values(F.definition(vis, loop)) if F.definition(vis, loop) is not None else []
+        if any(isinstance(x, ast.Constant) and x.value is True for x in ctor_vals):
             ctx.fail("C09-D2", site, "the visited table is initialised with True", "every vertex must start unsettled")
+        elif any(_holds_true(x) for x in ivals):
+            und("C09-D2", loop, "some entries of the visited table are set before the search starts")
         else:
             ctx.ok("C09-D2", site, "visited starts False")
     # ---------------------------------------------------------------- D3
@@ -2104,6 +2150,8 @@ def _dijkstra_loop(ctx, modname, fn0, F, Q, loop, item):
         und("C09-D3", st0, "the predecessor update is not visible (a helper receives the loop variables)")
     elif compound_pred:
         und("C09-D3", compound_pred[0], "the predecessor is recorded as a compound value the rule does not read")
+    elif d3_ok and not need_pred:
+        ctx.ok("C09-D3", s3, "a search that keeps no predecessor (labels only)")
     elif d3_ok:
         ctx.fail("C09-D3", s3, "predecessor is not updated in the block that updates the label",
                  "label and predecessor must change together, otherwise back-tracking follows a predecessor that belongs to a longer path")
@@ -2159,6 +2207,10 @@ def _dijkstra_loop(ctx, modname, fn0, F, Q, loop, item):
                     and F.root(ft[1].id, c) == F.root(nv, c):
                 if ft[2] is False:
                     continue
+                if vis is None:
+                    why_bad.append(("und", "push guarded by a membership test on a table the rule did not identify as the visited flags"))
+                    okg = False
+                    break
                 why_bad.append(("fail", "the push is guarded by `visited[nv]` (inverted)"))
                 okg = False
                 break
@@ -2244,6 +2296,8 @@ def _dijkstra_loop(ctx, modname, fn0, F, Q, loop, item):
             and not any(isinstance(n_, ast.IfExp) for n_ in ast.walk(lbl_def)):
         ctx.fail("C09-D4", site, "start is not both given a finite label and pushed before the loop",
                  f"{len(pre_push)} push(es) and no label store before the loop")
+    elif pre_lab and not pre_push and isinstance(F.definition(Q, loop), ast.Call) and (F.definition(Q, loop).args or F.definition(Q, loop).keywords):
+        und("C09-D4", loop, "the queue is created with initial entries")
     elif pre_lab and not pre_push and [n_ for n_ in au.walk(F.fn) if isinstance(n_, ast.Name) and n_.id == Q and isinstance(n_.ctx, ast.Load)
                                        and F.before(au.enclosing_stmt(n_), loop) and not F.inside(n_, loop)]:
         und("C09-D4", loop, "the queue is filled before the loop in a way the rule does not recognise")
@@ -2545,7 +2599,8 @@ def b1_backtracking(ctx, roles_by_fn):
             fed = [st_ for st_ in au.stmts(F.fn.body) if not isinstance(st_, (ast.For, ast.While, ast.If)) and
                    any(isinstance(n_, ast.Name) and F.root(n_.id, st_) == w.pred for n_ in ast.walk(st_)) and
                    any(isinstance(n_, ast.Name) and (n_.id in preds or F.root(n_.id, st_) in pr_roots) for n_ in ast.walk(st_))]
-            if preds and w.pred not in pr_roots and (w.pred in F.params or fed or (pdef is not None and (au.names(pdef) & (preds | pr_roots)))):
+            dep_on_pred = bool(hr.closure(F.deps(), {w.pred}) & (preds | pr_roots))
+            if preds and w.pred not in pr_roots and (w.pred in F.params or fed or dep_on_pred or (pdef is not None and (au.names(pdef) & (preds | pr_roots)))):
                 ctx.undecided(R, s, "the table walked by the back-tracking is derived from the predecessor table in a way the rule does not follow", "")
                 continue
             if preds and w.pred not in pr_roots:
@@ -2583,6 +2638,27 @@ def b1_backtracking(ctx, roles_by_fn):
             if origin_is_sentinel is None:
                 ctx.undecided(R, s, "the node the back-tracking starts from is not recognised", "")
                 continue
+            ret_roots = set()
+            for r_ in [st_ for st_ in au.stmts(F.fn.body) if isinstance(st_, ast.Return) and st_.value is not None]:
+                for x_ in ([r_.value] if not isinstance(r_.value, ast.Tuple) else list(r_.value.elts)):
+                    if isinstance(x_, ast.Name):
+                        ret_roots.add(F.root(x_.id, r_))
+            tab_ = None
+            if getattr(w, "stored_in", None) is not None and isinstance(w.stored_in, ast.Subscript) and isinstance(w.stored_in.value, ast.Name):
+                tab_ = F.root(w.stored_in.value.id, w.final_use)
+            elif isinstance(w.lst, ast.Subscript) and isinstance(w.lst.value, ast.Name):
+                tab_ = F.root(w.lst.value.id, lp)
+            if tab_ is not None:
+                outer_ = [a_ for a_ in au.ancestors(lp) if isinstance(a_, (ast.For, ast.While))]
+                later_ = [c_ for c_ in au.calls(F.fn) if isinstance(c_.func, ast.Attribute) and c_.func.attr in INPLACE and isinstance(c_.func.value, ast.Subscript)
+                          and isinstance(c_.func.value.value, ast.Name) and F.root(c_.func.value.value.id, c_) == tab_
+                          and outer_ and F.before(outer_[-1], c_) and not F.inside(c_, outer_[-1])]
+                later_ += [st_ for st_ in au.stmts(F.fn.body) if outer_ and F.before(outer_[-1], st_) and not F.inside(st_, outer_[-1])
+                           and not isinstance(st_, ast.Return) and any(isinstance(n_, ast.Name) and F.root(n_.id, st_) == tab_ for n_ in ast.walk(st_))
+                           and tab_ not in ret_roots]
+                if later_ or (ret_roots and tab_ not in ret_roots and not (isinstance(w.lst, ast.Name) and not getattr(w, "stored_in", None))):
+                    ctx.undecided(R, s, "the table that receives the back-tracked lists is processed further before the function returns", "")
+                    continue
             if not w.has_start:
                 ctx.fail(R, s, "back-tracking records the current node before stepping but does not append `start` exactly once after the loop", why)
                 continue
@@ -2681,7 +2757,13 @@ def b2_fresh_paths(ctx):
                 src_key = entry_key(v)
                 via = None
                 if src_key is None and isinstance(v, ast.Name) and v.id in name_keys:
-                    src_key, via = name_keys[v.id][0], v.id
+                    # the binding of the name that reaches this store must be the read of the other entry (the name may have been re-bound to a copy)
+                    try:
+                        d__ = F.b.reaching(v.id, st)
+                    except Exception:
+                        d__ = None
+                    if d__ is None or d__ is sym.Bindings.AMBIG or not isinstance(d__, ast.AST) or entry_key(d__) is not None:
+                        src_key, via = name_keys[v.id][0], v.id
                 def same_key(k1, at1, k2, at2):
                     if hr.same(k1, k2):
                         return True
@@ -2704,6 +2786,13 @@ def b2_fresh_paths(ctx):
         if tgt is None:
             continue
         if isinstance(tgt, ast.Name) and tgt.id in shared_names and F.before(shared_names[tgt.id], st):
+            # the binding in force at the change: a name re-bound to a copy (`p = list(p)`) no longer denotes the stored entry
+            binds_ = [(s2, v2) for s2 in au.stmts(fn.body) for n2, v2 in sym.split_assign(s2) if n2 == tgt.id and F.before(s2, st) and not F.inside(st, s2)]
+            binds_.sort(key=lambda x: F.pos(x[0]))
+            last_ = binds_[-1] if binds_ else None
+            if last_ is not None and entry_key(last_[1]) is None and not isinstance(last_[1], ast.Name) and \
+                    (not F.conds(last_[0]) or F.unconditional(last_[0], st)):
+                continue
             bad.append(st)
         elif isinstance(tgt, ast.Subscript) and any(hr.same(tgt, t) and F.before(s_, st) for s_, t in shared_entries):
             bad.append(st)
@@ -2787,6 +2876,11 @@ def r1_forwarding(ctx):
             blk_, _o = au.enclosing_block(cst_) if cst_ is not None else (None, None)
             after_ = blk_[sk.index_in(blk_, cst_) + 1:] if blk_ is not None else []
             used_elsewhere = {n_.id for st_ in after_ for n_ in ast.walk(st_) if isinstance(n_, ast.Name) and isinstance(n_.ctx, ast.Load) and n_.id in missing}
+            # the call sits in a loop and the option is dealt with after that loop
+            for lp_ in [a_ for a_ in au.ancestors(c) if isinstance(a_, (ast.For, ast.While))]:
+                b2_, _o2 = au.enclosing_block(lp_)
+                for st_ in (b2_[sk.index_in(b2_, lp_) + 1:] if b2_ is not None else []):
+                    used_elsewhere |= {n_.id for n_ in ast.walk(st_) if isinstance(n_, ast.Name) and isinstance(n_.ctx, ast.Load) and n_.id in missing}
             if missing and all(m_ in cond_names or m_ in used_elsewhere for m_ in missing):
                 ctx.undecided("C09-R2", ctx.site(PATHS, fn, c), f"{q} calls {c.func.id} on a branch that tests the option it does not forward", "")
                 continue
